@@ -559,7 +559,7 @@ func main() {
 		ID:    "C17",
 		Level: "exploration",
 		Rule: "a case is one value tree (description in internal/exptree) built through the public API in a named representation, exported by export.Export(…, export.JSON()) and decoded by encoding/json (json.Valid, then a token-level decode that keeps duplicates); pass = arrays in order, objects with exactly the map's key set and no duplicate, every scalar the JSON string of its string form. " +
-			"distinct_nontrivial = distinct exported documents that contain an escape sequence, a non-ASCII byte or nesting depth >= 2 (tree spaces: counted for variant 0 only)",
+			"distinct_nontrivial = distinct exported documents that contain an escape sequence, a non-ASCII byte or nesting depth >= 2 (tree spaces: counted for variant 0 only); counted per worker by a hash of the document and summed — all representations of one string / shape run in the same worker, so equal documents are not counted twice",
 		Assumptions: []string{
 			"strings and keys are valid UTF-8 (the property's domain); map keys are distinct (duplicate keys are C13's subject)",
 			"the string form of a scalar is the documented one: Int decimal, Float strconv 'g' shortest round-trip, Bool true/false — computed by the oracle with strconv, not taken from the library",
